@@ -30,6 +30,13 @@ pub fn numbers(thorough: bool) -> Vec<(Value, String)> {
         (json!(0.9999999999999999), "0.9999999999999999".into()),
         (json!(4503599627370497i64), "4503599627370497".into()),
         (json!(4503599627370496.0), "4503599627370496.0".into()),
+        // beyond the integer representations: float literals at and above 2^63 / 2^64, document integers stored as
+        // u64, and their float-stored equals (all distinct values here are distinct as f64)
+        (json!(1e19), "1e19".into()),
+        (json!(2e19), "2E19".into()),
+        (json!(9223372036854775808u64), "9223372036854775808.0".into()),
+        (json!(18446744073709551615u64), "1.8446744073709552e19".into()),
+        (json!(-1e19), "-1e19".into()),
     ];
     if thorough {
         v.extend([
@@ -415,7 +422,7 @@ pub fn run(tier: &str) -> i32 {
         acc,
         "one cell = one (left operand value, right operand value, operator, operand form); all cells of one operand form and operator are packed into one document (one array element per value pair) and decided by one filter query, disagreeing cells are re-checked alone; oracle = RFC 9535 2.3.5.2.2 comparison in the reference model plus the algebraic laws (!= is not ==, <= is < or ==, > mirrors <, trichotomy) on the observed truth values; non-trivial = cells for which the comparison is true",
         &[
-            "document numbers are finite, within +-(2^53-1), distinct mathematical values are distinct f64 values",
+            "document numbers are finite; outside +-(2^53-1) only values whose comparison is decided by their f64 value (I-JSON) are used; distinct values of the universe are distinct as f64",
             "integer literals outside the I-JSON range are not part of the universe",
         ],
         true,
